@@ -205,17 +205,32 @@ def _inline(items_by_name, items, self_name, depth=0):
 
 
 def _block_writers(ctx):
-    """methods (reachable from add_file) that emit the sync bytes 55 3C: discovered by what they do"""
-    methods, items = _extract(ctx)
-    out = {}
-    for n, its in items.items():
-        top = [x for x in its if x[0] in ("byte", "rep", "alt")]
-        bs = [x for x in its if x[0] == "byte"]
-        # first two top-level constant bytes anywhere (possibly after an early-return alt)
-        consts = [x[2] for x in bs[:3]]
-        if len(consts) >= 3 and consts[0] == T.SYNC[0] and consts[1] == T.SYNC[1]:
-            out[n] = consts[2]
-    return out
+    """the methods add_file calls that (with their helpers inlined) emit the sync bytes 55 3C: discovered by what they do"""
+    def build():
+        methods, items = _extract(ctx)
+        top = [it[1] for it in _walk_items(items.get("add_file", [])) if it[0] == "call"]
+        out = {}
+        for n in dict.fromkeys(top):
+            inl = _inline(items, items.get(n, []), n)
+            bs = [x for x in _walk_items(inl) if x[0] == "byte"]
+            consts = [x[2] for x in bs[:3]]
+            if len(consts) >= 3 and consts[0] == T.SYNC[0] and consts[1] == T.SYNC[1] and consts[2] is not None:
+                out[n] = consts[2]
+        return out
+    return ctx.memo("cas-writers", build)
+
+
+def _walk_items(items):
+    for it in items:
+        yield it
+        if it[0] == "rep":
+            for x in _walk_items(it[3]):
+                yield x
+        elif it[0] == "alt":
+            for x in _walk_items(it[2]):
+                yield x
+            for x in _walk_items(it[3]):
+                yield x
 
 
 def _frame(flat):
@@ -300,8 +315,10 @@ def cas1(ctx, c):
     c.floor("block writers (methods emitting 55 3C)", len(writers), 3)
     kinds = sorted(writers.values())
     for t in (T.BLOCK_NAMEFILE, T.BLOCK_DATA, T.BLOCK_EOF):
-        c.check(t in kinds, "writers", "block type %#04x written" % t, "no writer for block type %#04x" % t,
-                "no method of CassetteFile writes a block of type %02X" % t, repo.cls(CLS).module.rel)
+        if t in kinds:
+            c.ok("writers", "block type %#04x written" % t, repo.cls(CLS).module.rel)
+        else:
+            c.undecided("writers:%#04x" % t, "no method recognised as the writer of this block type (blocks may be framed by a shared helper)", "", repo.cls(CLS).module.rel)
     for name, btype in sorted(writers.items()):
         fn = repo.method(CLS, name)
         where = repo.loc(fn, fn.node)
@@ -316,6 +333,16 @@ def cas1(ctx, c):
                 continue
             npaths += 1
             site = "%s[%s]" % (name, cd)
+            varying = [x for x in _walk_items(flat) if x[0] == "rep" and x[2] is None and re.search(r"\.encode\(|\.split\(|\.strip\(", x[1])]
+            if varying and btype == T.BLOCK_NAMEFILE:
+                c.finding(site + ":length", "a header field is written by a loop whose length depends on the data (%s)" % varying[0][1][:50],
+                          "%s writes part of the fixed 15-byte name-file payload with a loop over %s: the number of bytes varies with the content (a non-ASCII character encodes to several bytes), "
+                          "so the payload no longer matches the length byte" % (name, varying[0][1]), where)
+                continue
+            unknown = [x for x in _walk_items(flat) if x[0] == "other" and re.search(r"self\.buffer|%s" % "|".join(re.escape(a_) for a_ in _acc_vars(methods)), x[1])]
+            if unknown:
+                c.undecided(site, "writer uses an idiom the extractor does not model: %s" % unknown[0][1][:50], "", where)
+                continue
             for it in flat:
                 if it[0] == "paramassign":
                     benign = re.fullmatch(r"\$\d+(\.(upper|strip)\(\)|\.ljust\(\d+(, '[ \\x00]')?\)|\[:(\d+)\])*", it[2]) is not None
@@ -442,9 +469,10 @@ def _namefile_payload(c, name, site, payload, where):
     goodsrc = lv is not None and all(re.fullmatch(r"ord\(\$1\.name\[%s\]\)" % re.escape(lv), t) for t in srcs) and srcs
     if goodsrc:
         c.ok(site + ":name-source", "name byte i = name[i] (padded)", where)
+    elif srcs and all(re.fullmatch(r"ord\(\$1\.name\[[^\]]+\]\)", t) for t in srcs):
+        c.finding(site + ":name-source", "name bytes taken from %s" % sorted(srcs), "%s: the name field is filled from %s, not character i of the file name" % (name, sorted(srcs)), where)
     else:
-        c.check(False if any("name" not in t for t in srcs) else None is None and bool(srcs) and all("$1.name" in t and ("[%s]" % lv) in t for t in srcs), site + ":name-source",
-                "name byte i = name[i]", "name bytes taken from %s" % sorted(srcs), "%s: the name field is filled from %s, not character i of the file name" % (name, sorted(srcs)), where)
+        c.undecided(site + ":name-source", "name-byte-expression-not-recognised", str(sorted(srcs))[:80], where)
     rest = [x[1] for x in flat[1:] if x[0] == "byte"]
     want = ["file_type", "data_type", "gap_flag", "load_hi", "load_lo", "exec_hi", "exec_lo"]
     if len(rest) != len(want):
@@ -517,48 +545,59 @@ def _data_payload(c, name, site, conds, lenb, payload, tail, where):
 
 
 def cas4(ctx, c):
-    """CAS-4 file order in add_file; fillers are leaders/blanks; append-only stores."""
+    """CAS-4 file order in add_file on every path; fillers are leaders/blanks; append-only stores."""
     repo = ctx.repo
     methods, items = _extract(ctx)
     writers = _block_writers(ctx)
     fn = repo.method(CLS, "add_file")
     where = repo.loc(fn, fn.node)
-    seq = []
-    for it in items["add_file"]:
+
+    def classify(it):
         if it[0] == "call":
             callee = items.get(it[1], [])
             if it[1] in writers:
-                seq.append(("block", writers[it[1]], it[1], it[2]))
-            elif _only_const_bytes(callee, T.LEADER_BYTE):
-                seq.append(("leader", it[1]))
-            elif _only_const_bytes(callee, 0x00):
-                seq.append(("blank", it[1]))
-            else:
-                seq.append(("other", it[1]))
-        elif it[0] in ("byte", "rep"):
-            seq.append(("raw", it[1]))
-        elif it[0] in ("alt", "other"):
-            seq.append(("other", it[0]))
-    blocks = [s[1] for s in seq if s[0] == "block"]
-    c.check(blocks == [T.BLOCK_NAMEFILE, T.BLOCK_DATA, T.BLOCK_EOF], "add_file:order", "name-file, data, EOF",
-            "block order %s" % ["%02X" % b for b in blocks], "add_file writes blocks in order %s, the format is name-file (00), data (01), EOF (FF)" % ["%02X" % b for b in blocks], where)
-    if any(s[0] in ("other", "raw") for s in seq):
-        c.undecided("add_file:shape", "unknown-step-in-add_file", str([s for s in seq if s[0] in ("other", "raw")]), where)
-    # a leader before the name-file block and before the first data block
-    for btype, label in ((T.BLOCK_NAMEFILE, "name-file"), (T.BLOCK_DATA, "data")):
-        idx = next((i for i, s in enumerate(seq) if s[0] == "block" and s[1] == btype), None)
-        if idx is None:
+                return ("block", writers[it[1]], it[1], it[2])
+            if _only_const_bytes(callee, T.LEADER_BYTE):
+                return ("leader", it[1])
+            if _only_const_bytes(callee, 0x00):
+                return ("blank", it[1])
+            return ("other", it[1])
+        if it[0] == "rep" and _only_const_bytes([it], T.LEADER_BYTE):
+            return ("leader", "inline")
+        if it[0] == "rep" and _only_const_bytes([it], 0x00):
+            return ("blank", "inline")
+        if it[0] in ("byte", "rep"):
+            return ("raw", it[1])
+        if it[0] == "ret":
+            return None
+        return ("other", it[0])
+    npaths = 0
+    for conds, flat in paths(items["add_file"]):
+        npaths += 1
+        cd = ", ".join("%s=%s" % kv for kv in conds) or "always"
+        seq = [x for x in (classify(it) for it in flat) if x is not None]
+        site = "add_file[%s]" % cd
+        blocks = [s_[1] for s_ in seq if s_[0] == "block"]
+        if any(s_[0] in ("other", "raw") for s_ in seq) or len(writers) < 3:
+            c.undecided(site + ":order", "add_file's steps are not all recognised as block writers / fillers", str([s_[:3] for s_ in seq])[:160], where)
             continue
-        prev_block = max([i for i, s in enumerate(seq[:idx]) if s[0] == "block"], default=-1)
-        has_leader = any(s[0] == "leader" for s in seq[prev_block + 1:idx])
-        c.check(has_leader, "add_file:leader-before-%s" % label, "leader present", "no leader before the %s block" % label,
-                "add_file writes no $55 leader before the %s block" % label, where)
-    # arguments: header gets the file, data blocks get its data
-    for s in seq:
-        if s[0] == "block" and s[1] == T.BLOCK_NAMEFILE:
-            c.check(s[3] == ["$1"], "add_file:header-arg", "header(file)", "header(%s)" % s[3], "append_header is not given the file being added", where)
-        if s[0] == "block" and s[1] == T.BLOCK_DATA:
-            c.check(s[3][:1] == ["$1.data"], "add_file:data-arg", "data blocks(file.data)", "data blocks(%s)" % s[3], "the data blocks are not written from the file's data", where)
+        c.check(blocks == [T.BLOCK_NAMEFILE, T.BLOCK_DATA, T.BLOCK_EOF], site + ":order", "name-file, data, EOF", "block order %s" % ["%02X" % b_ for b_ in blocks],
+                "add_file writes blocks in order %s, the format is name-file (00), data (01), EOF (FF)" % ["%02X" % b_ for b_ in blocks], where)
+        # a leader in front of the name-file block and in front of whatever follows it (data blocks or, for an empty file, the EOF block)
+        idx_n = next((i for i, s_ in enumerate(seq) if s_[0] == "block" and s_[1] == T.BLOCK_NAMEFILE), None)
+        if idx_n is not None:
+            c.check(any(s_[0] == "leader" for s_ in seq[:idx_n]), site + ":leader-before-name-file", "leader present", "no leader before the name-file block",
+                    "add_file writes no $55 leader before the name-file block (when %s)" % cd, where)
+            nxt = next((i for i, s_ in enumerate(seq) if i > idx_n and s_[0] == "block"), None)
+            if nxt is not None:
+                c.check(any(s_[0] == "leader" for s_ in seq[idx_n + 1:nxt]), site + ":leader-after-name-file", "leader present", "no leader between the name-file block and the next block",
+                        "add_file writes no $55 leader between the name-file block and the block that follows it (when %s): the file's blocks must each be preceded by a leader" % cd, where)
+        for s_ in seq:
+            if s_[0] == "block" and s_[1] == T.BLOCK_NAMEFILE:
+                c.check(s_[3] == ["$1"], site + ":header-arg", "header(file)", "header(%s)" % s_[3], "append_header is not given the file being added", where)
+            if s_[0] == "block" and s_[1] == T.BLOCK_DATA:
+                c.check(s_[3][:1] == ["$1.data"], site + ":data-arg", "data blocks(file.data)", "data blocks(%s)" % s_[3], "the data blocks are not written from the file's data", where)
+    c.floor("add_file paths", npaths, 1)
     # append-only: no store into / removal from self.buffer in the writer methods
     n = 0
     for mname, mnode in methods.items():
@@ -569,17 +608,17 @@ def cas4(ctx, c):
                 for t in tg:
                     if isinstance(t, ast.Subscript) and U(t.value) == "self.buffer":
                         bad = U(node)
-                    if isinstance(t, ast.Attribute) and U(t) == "self.buffer":
+                    if isinstance(t, ast.Attribute) and U(t) == "self.buffer" and not isinstance(node, ast.AugAssign):
                         bad = U(node)
             if isinstance(node, ast.Call) and isinstance(node.func, ast.Attribute) and U(node.func.value) == "self.buffer":
                 n += 1
                 if node.func.attr in ("insert", "pop", "remove", "clear", "reverse", "sort", "__setitem__", "__delitem__"):
                     bad = U(node)
-            if bad:
+            if bad and mname != "__init__":
                 c.finding("%s:append-only" % mname, "non-append store: %s" % bad[:50], "CassetteFile.%s modifies the tape buffer other than by appending: %s" % (mname, bad[:80]),
                           "%s:%d" % (repo.cls(CLS).module.rel, node.lineno))
     c.ok("CassetteFile:append-only", "%d buffer calls, all append/extend or reads" % n, where)
-    c.floor("buffer calls in CassetteFile", n, 10)
+    c.floor("buffer calls in CassetteFile", n, 4)
 
 
 def cas6(ctx, c):
@@ -589,7 +628,8 @@ def cas6(ctx, c):
     writers = _block_writers(ctx)
     data_writer = next((n for n, t in writers.items() if t == T.BLOCK_DATA), None)
     if data_writer is None:
-        raise AnalysisError("CAS-6: no data block writer")
+        c.undecided("read_file/data-writer", "data block writer not recognised", "")
+        return
     empty_paths = [conds for conds, flat in paths(_inline(items, items[data_writer], data_writer)) if not any(x[0] == "byte" for x in flat)]
     rf = repo.method(CLS, "read_file")
     falsy_none = None
@@ -680,7 +720,11 @@ def cas5(ctx, c):
     """CAS-5: the reader consumes exactly the frames the writer produces, field by field."""
     repo = ctx.repo
     C = repo.cls(CLS)
-    lay = writer_layout(ctx)
+    try:
+        lay = writer_layout(ctx)
+    except AnalysisError as e:
+        c.undecided("writer-layout", "name-file writer not recognised", str(e))
+        return
     rf = repo.method(CLS, "read_file")
     rb = repo.method(CLS, "read_blocks")
     where = repo.loc(rf, rf.node)
@@ -732,6 +776,8 @@ def cas5(ctx, c):
             site = "read_file:%s" % kwname
             if off is None:
                 c.undecided(site, "offset-not-affine", repr(cf.kw.get(kwname))[:60], w)
+            elif lay.get(field) is None:
+                c.undecided(site, "writer-offset-of-%s-not-extracted" % field, "", w)
             else:
                 c.check(off == lay.get(field), site, "@%d = writer's %s" % (off, field), "reads @%d, writer puts %s @%s" % (off, field, lay.get(field)),
                         "read_file takes CoCoFile.%s from frame offset %d, the writer stores the %s at offset %s" % (kwname, off, field, lay.get(field)), w)
@@ -833,8 +879,7 @@ def cas5(ctx, c):
                     "payload bytes would be scanned for the next sync" % (repr(pv)[:120],), w)
     # the data bytes are taken from offset 4 + i
     loops = [n for n in ast.walk(rb.node) if isinstance(n, ast.For)]
-    c.check("eof" in seen_arms and "data" in seen_arms, "read_blocks:arms", "EOF and data arms found", "arms found: %s" % sorted(seen_arms),
-            "read_blocks has no recognisable arm for %s blocks" % ("data" if "data" not in seen_arms else "EOF"), whereb)
+    c.shape("eof" in seen_arms and "data" in seen_arms, "read_blocks:arms", "EOF and data arms found", "arms recognised: %s" % sorted(seen_arms), whereb)
     # data payload read offsets: evaluate the loop body read with the loop variable symbolic
     it2 = Interp(rb.node, sub_bases=("self.buffer",), call_syms={"self.skip_to_sequence": "F"})
     offs = set()
